@@ -599,7 +599,9 @@ impl UntypedProgram {
                 if fn_def.params.is_empty() {
                     let e = TypeErrorEnum::PubFnWithoutParams(fn_name.clone());
                     errors.push(Some(TypeError::new(e, fn_def.meta)));
-                } else {
+                } else if !checked_fn_defs.typed.contains_key(fn_name.as_str()) {
+                    // (a pub fn called by a previously checked fn has already been checked, its
+                    // errors have been reported and must not be reported a second time)
                     let typed_fn =
                         fn_def.type_check(&top_level_defs, &mut checked_fn_defs, &untyped_defs);
                     if let Err(e) = typed_fn.clone() {
